@@ -15,6 +15,11 @@ def _inventory():
         return set(json.load(fh)["functions"])
 
 
+def known_state():
+    with open(os.path.join(HERE, "known_functions.json"), encoding="utf-8") as fh:
+        return {k: set(v) for k, v in json.load(fh).get("state", {}).items()}
+
+
 def new_function_keys(ix):
     inv = _inventory()
     return {k for k, f in ix.funcs.items() if not isinstance(f.node, ast.Lambda) and k not in inv
